@@ -141,3 +141,15 @@ Proof.
   intros Ha Hb Na Nb Hc. destruct (float_cmp_zero a b Ha Hb Na Nb Hc) as [->|[Za Zb]]; [reflexivity|].
   unfold float_hash. rewrite Za, Zb. reflexivity.
 Qed.
+
+(* two zeros (any signs) compare equal *)
+Lemma float_cmp_zeros a b : f_is_zero a = true -> f_is_zero b = true -> float_cmp a b = 0%Z.
+Proof.
+  unfold f_is_zero. rewrite float_cmp_unfold.
+  destruct (f_of_bits a) as [s| | |]; try discriminate.
+  destruct (f_of_bits b) as [s'| | |]; try discriminate.
+  intros _ _. destruct s, s'; reflexivity.
+Qed.
+
+Lemma f_is_zero_nonnan b : f_is_zero b = true -> f_is_nan b = false.
+Proof. unfold f_is_zero, f_is_nan. destruct (f_of_bits b); try discriminate. reflexivity. Qed.
